@@ -278,6 +278,20 @@ def search_c14():
     return None
 
 
+def search_c18():
+    from rsatoolbox.simulation import make_design
+    for n_cond in range(1, 9):
+        for n_part in range(1, 6):
+            cv, pv = make_design(n_cond, n_part)
+            cv, pv = [float(x) for x in cv], [float(x) for x in pv]
+            want_c = [float(c) for _ in range(n_part) for c in range(n_cond)]
+            want_p = [float(p) for p in range(n_part) for _ in range(n_cond)]
+            if cv != want_c or pv != want_p:
+                return _fail('make_design', dict(n_cond=n_cond, n_part=n_part), dict(cond_vec=cv, part_vec=pv),
+                             dict(cond_vec=want_c, part_vec=want_p), 'the design does not list every condition exactly once per partition')
+    return None
+
+
 def search_c10():
     from rsatoolbox.util.rdm_utils import _get_n_from_length, _get_n_from_reduced_vectors
     for n in list(range(1, 3001)) + [2 ** e + d for e in range(12, 26) for d in (-1, 0, 1)]:
